@@ -11,6 +11,64 @@ ORDER_THOROUGH = ORDER_QUICK + [('W_metric_m1', 'W_metric_m2', 'W_comp_vmd', 'W_
                                 ('W_metric_m1', 'W_metric_m1', 'W_metric_m2')]
 
 
+def slow_subscriber(run):
+    """A subscriber that needs several seconds for one notification while another thread commits the next transaction:
+    the reports must still arrive in MdibVersion order (sync and async manager, real time, not scheduled)."""
+    import threading
+    import time
+    from decimal import Decimal
+    from verif.pair import Pair
+    for async_mgr in (True, False):
+        pair = Pair(async_mgr=async_mgr)
+        arrived = []
+        state = {'first': True}
+        stall = run.pick(7.0, 12.0)
+
+        def on_post(wire):
+            if wire.src == 'provider' and b'EpisodicMetricReport' in wire.data:
+                if state['first']:
+                    state['first'] = False
+                    return ('delay', stall)
+            return None
+        orig_deliver = pair.net.deliver
+
+        def deliver(wire):
+            if wire.src == 'provider' and b'EpisodicMetricReport' in wire.data:
+                md = pair.consumer.msg_reader.read_received_message(wire.data)
+                arrived.append(md.mdib_version_group.mdib_version)
+            return orig_deliver(wire)
+        pair.net.deliver = deliver
+        pair.net.on_post = on_post
+
+        def commit(value):
+            with pair.mdib.metric_state_transaction() as mgr:
+                mgr.get_state('numeric.ch0.vmd0').MetricValue.Value = Decimal(value)
+        t1 = threading.Thread(target=commit, args=(1,), daemon=True)
+        t1.start()
+        time.sleep(0.5)
+        t2 = threading.Thread(target=commit, args=(2,), daemon=True)
+        t2.start()
+        t1.join(timeout=stall + 30)
+        t2.join(timeout=stall + 30)
+        time.sleep(0.3)
+        pair.net.on_post = None
+        pair.net.deliver = orig_deliver
+        alive = t1.is_alive() or t2.is_alive()
+        pair.stop()
+        run.count('slow_subscriber_runs')
+        run.distinct_traces.add(('slow_subscriber', async_mgr))
+        if alive:
+            from verif.tlc import MachineryError
+            raise MachineryError('writer threads did not finish in the slow subscriber scenario')
+        ordered = all(arrived[i] <= arrived[i + 1] for i in range(len(arrived) - 1))
+        if not ordered or len(arrived) < 2:
+            descr = {'check': 'slow_subscriber', 'clause': 'wire_in_version_order' if not ordered else 'report_complete',
+                     'manager': 'async' if async_mgr else 'sync'}
+            if not run.is_known(descr):
+                run.violation(descr, f'one notification stalled {stall} s: reports arrived as MdibVersions {arrived}',
+                              {'arrived': arrived, 'stall_s': stall, 'async_mgr': async_mgr})
+
+
 def check(run, replay_path=None):
     mdibcommon.model_check(run)
     variants = [dict(periodic_reports_interval=100000), dict(async_mgr=True, periodic_reports_interval=100000)]
@@ -18,6 +76,7 @@ def check(run, replay_path=None):
     # delivery order under concurrently writing threads (all interleavings of the recorded thread programs)
     from verif.checks.c07 import run_scenarios
     scenarios = run.pick(ORDER_QUICK, ORDER_THOROUGH)
-    run_scenarios(run, scenarios, run.pick(80, 1500), {'wire_in_version_order'}, prefix='c04')
+    run_scenarios(run, scenarios, run.pick(80, 1500), {'wire_in_version_order', 'request_answered'}, prefix='c04')
+    slow_subscriber(run)
     run.assumptions += ['order: one subscriber endpoint with several subscriptions; wire order observed at the loop-back client',
                         'periodic store inspected through PeriodicReportsHandler lists (last 3 entries per kind)']
